@@ -88,6 +88,31 @@ theorem elementAt_fresh (extra old : List VEntry) (q : Nat) (hq : ∀ v ∈ extr
         rw [if_neg (by intro hm; exact hne hm.1)]
         exact ih (fun u hu => hq u (List.mem_cons_of_mem _ hu)) hn.2 h
 
+/-- destroying the rows of other elements does not matter -/
+theorem elementAt_eraseAll_other (a : List Id) (log : List VEntry) (i : Id) (c : Nat) (h : i ∉ a) :
+    elementAt (eraseAll a log) i c = elementAt log i c := by
+  induction log with
+  | nil => rfl
+  | cons v r ih =>
+      by_cases hv : v.id ∈ a
+      · have hvi : v.id ≠ i := fun e => h (e ▸ hv)
+        have : eraseAll a (v :: r) = eraseAll a r := by
+          unfold eraseAll; rw [List.filter_cons]; simp [hv]
+        rw [this, ih]
+        simp only [elementAt]
+        rw [if_neg (fun hm => hvi hm.1)]
+      · rw [eraseAll_cons_keep a v r hv]
+        simp only [elementAt, ih]
+
+/-- destroying the rows of an element leaves nothing of it at any coordinate -/
+theorem elementAt_eraseAll_self (a : List Id) (log : List VEntry) (i : Id) (c : Nat) (h : i ∈ a) :
+    elementAt (eraseAll a log) i c = none := by
+  cases hel : elementAt (eraseAll a log) i c with
+  | none => rfl
+  | some b =>
+      obtain ⟨hm, hid, _⟩ := elementAt_mem hel
+      exact absurd (hid ▸ h) (mem_eraseAll hm).2
+
 /-! ## The history invariant -/
 
 /-- every version row is at or below the Space sequence, and `element_at` at the present returns
@@ -108,9 +133,12 @@ theorem visible_written (q : Nat) (i : Id) (x : Staged) : visible (some (written
   have := writtenElem_not_pending q i x
   simp [visible, this]
 
-/-- a step that appended the rows of one loop at the next sequence -/
-theorem VInv.of_loop {s s' : Store} {q : Nat} {extra : List VEntry} {w : List Change} (h : VInv s) (hq : q = s.seq + 1)
-    (hseq : s'.seq = q) (hvl : s'.vlog = extra ++ s.vlog) (hids : extra.map (·.id) = (w.map (·.id)).reverse)
+/-- a step that appended the rows of one loop at the next sequence (and destroyed the old rows of
+some of the elements it wrote) -/
+theorem VInv.of_loop {s s' : Store} {q : Nat} {extra : List VEntry} {erased : List Id} {w : List Change} (h : VInv s)
+    (hq : q = s.seq + 1)
+    (hseq : s'.seq = q) (hvl : s'.vlog = extra ++ eraseAll erased s.vlog) (hids : extra.map (·.id) = (w.map (·.id)).reverse)
+    (her : ∀ i ∈ erased, i ∈ w.map (·.id))
     (hnd : (w.map (·.id)).Nodup)
     (hok : ∀ v ∈ extra, v.seq = q ∧ s'.elems v.id = some v.elem ∧ v.version = v.elem.version ∧ v.elem.state ≠ .pending)
     (hframe : ∀ i, (∀ c ∈ w, c.id ≠ i) → visible (s'.elems i) = visible (s.elems i)) : VInv s' := by
@@ -119,29 +147,34 @@ theorem VInv.of_loop {s s' : Store} {q : Nat} {extra : List VEntry} {w : List Ch
     unfold List.Nodup at hnd ⊢
     rw [List.pairwise_reverse]
     exact hnd.imp (fun h => fun e => h e.symm)
+  have hold : ∀ u ∈ eraseAll erased s.vlog, u.seq < q := fun u hu => by have := h.le u (mem_eraseAll hu).1; omega
   refine { le := ?_, cur := ?_ }
   · intro v hv
     rw [hvl] at hv
     rcases List.mem_append.mp hv with hv | hv
     · rw [(hok v hv).1, hseq]; exact Nat.le_refl _
-    · have := h.le v hv; omega
+    · have := hold v hv; omega
   · intro i
     rw [hvl, hseq]
     by_cases hi : i ∈ extra.map (·.id)
     · obtain ⟨v, hv, hvi⟩ := List.mem_map.mp hi
       subst hvi
-      rw [elementAt_fresh extra s.vlog q (fun u hu => (hok u hu).1) (fun u hu => by have := h.le u hu; omega) hnd' v hv]
+      rw [elementAt_fresh extra _ q (fun u hu => (hok u hu).1) hold hnd' v hv]
       obtain ⟨_, hel, _, hst⟩ := hok v hv
       rw [hel]
       simp [visible, hst]
     · have hne : ∀ v ∈ extra, v.id ≠ i := fun v hv heq => hi (List.mem_map.mpr ⟨v, hv, heq⟩)
-      rw [elementAt_skip_other extra s.vlog i q hne]
+      rw [elementAt_skip_other extra _ i q hne]
       have hw : ∀ c ∈ w, c.id ≠ i := by
         intro c hc heq
         apply hi
         rw [hids]
         exact List.mem_reverse.mpr (List.mem_map.mpr ⟨c, hc, heq⟩)
-      rw [hframe i hw, elementAt_coord s.vlog i s.seq q h.le (by omega)]
+      have hier : i ∉ erased := by
+        intro hie
+        obtain ⟨c, hc, hci⟩ := List.mem_map.mp (her i hie)
+        exact hw c hc hci
+      rw [elementAt_eraseAll_other erased s.vlog i q hier, hframe i hw, elementAt_coord s.vlog i s.seq q h.le (by omega)]
       exact h.cur i
 
 /-! ## What a statement does to the log, to `WF` and to `VInv` -/
@@ -156,12 +189,20 @@ theorem committedStore_elems (s' : Store) (tx : Tx) (time : Nat) (w : List Chang
   simp only [committedStore, discardUnstaged, discardShells, discard_elems, List.mem_filter]
   by_cases h1 : i ∈ tx.shells <;> by_cases h2 : i ∈ w.map (·.id) <;> simp [h1, h2]
 
+/-- the elements whose recorded versions a statement destroys: the purges a **committed** statement staged -/
+def erasedOf (s : Store) (st : Stmt) : List Id :=
+  match (exec s st).2 with
+  | .done .. => erasedIds (planned s st).tx.staged
+  | _ => []
+
 /-- Everything about one executed statement that the property theorems use. -/
 structure ExecSpec (s : Store) (st : Stmt) : Prop where
   wf : WF (exec s st).1
   seq : (exec s st).1.seq = s.seq + 1
-  /-- the version log only grows, by rows carrying the statement's sequence -/
-  vlog : ∃ extra, (exec s st).1.vlog = extra ++ s.vlog ∧ ∀ v ∈ extra, v.seq = s.seq + 1
+  /-- the version log gains rows carrying the statement's sequence; it loses rows only when the
+  statement got as far as the write loop, and then exactly those of the purges it had staged -/
+  vlog : ∃ extra erased, (exec s st).1.vlog = extra ++ eraseAll erased s.vlog ∧ (∀ v ∈ extra, v.seq = s.seq + 1) ∧
+      ((∀ e w, (exec s st).2 ≠ .refusedWrite e w) → erased = erasedOf s st)
   vinv : VInv s → VInv (exec s st).1
 
 theorem loop_frame_visible {base : Store} {q : Nat} {d : Bool} {p : PS} (hinv : RInv base q d p)
@@ -176,23 +217,41 @@ theorem exec_spec {s : Store} (hwf : WF s) (st : Stmt) : ExecSpec s st := by
   -- the three outcomes that leave log and visible rows alone
   have quiet : ∀ s1 : Store, WF s1 → s1.seq = s.seq + 1 → s1.vlog = s.vlog →
       (∀ i, visible (s1.elems i) = visible (s.elems i)) →
-      WF s1 ∧ s1.seq = s.seq + 1 ∧ (∃ extra, s1.vlog = extra ++ s.vlog ∧ ∀ v ∈ extra, v.seq = s.seq + 1) ∧ (VInv s → VInv s1) :=
-    fun s1 h1 h2 h3 h4 => ⟨h1, h2, ⟨[], by simp [h3], by intro v hv; cases hv⟩, fun hv => hv.of_same h3 (by omega) h4⟩
+      WF s1 ∧ s1.seq = s.seq + 1 ∧ (∃ extra, s1.vlog = extra ++ eraseAll [] s.vlog ∧ ∀ v ∈ extra, v.seq = s.seq + 1) ∧ (VInv s → VInv s1) :=
+    fun s1 h1 h2 h3 h4 => ⟨h1, h2, ⟨[], by simp [h3, eraseAll_nil], by intro v hv; cases hv⟩, fun hv => hv.of_same h3 (by omega) h4⟩
+  -- in the quiet outcomes nothing is erased, and `erasedOf` says so
   suffices h : WF (exec s st).1 ∧ (exec s st).1.seq = s.seq + 1 ∧
-      (∃ extra, (exec s st).1.vlog = extra ++ s.vlog ∧ ∀ v ∈ extra, v.seq = s.seq + 1) ∧ (VInv s → VInv (exec s st).1) from
+      (∃ extra erased, (exec s st).1.vlog = extra ++ eraseAll erased s.vlog ∧ (∀ v ∈ extra, v.seq = s.seq + 1) ∧
+        ((∀ e w, (exec s st).2 ≠ .refusedWrite e w) → erased = erasedOf s st)) ∧ (VInv s → VInv (exec s st).1) from
     ⟨h.1, h.2.1, h.2.2.1, h.2.2.2⟩
+  have lift : ∀ (r : Store × Outcome), exec s st = r → (∀ q a b, r.2 ≠ .done q a b) →
+      (WF r.1 ∧ r.1.seq = s.seq + 1 ∧ (∃ extra, r.1.vlog = extra ++ eraseAll [] s.vlog ∧ ∀ v ∈ extra, v.seq = s.seq + 1) ∧ (VInv s → VInv r.1)) →
+      WF (exec s st).1 ∧ (exec s st).1.seq = s.seq + 1 ∧
+      (∃ extra erased, (exec s st).1.vlog = extra ++ eraseAll erased s.vlog ∧ (∀ v ∈ extra, v.seq = s.seq + 1) ∧
+        ((∀ e w, (exec s st).2 ≠ .refusedWrite e w) → erased = erasedOf s st)) ∧ (VInv s → VInv (exec s st).1) := by
+    intro r hr hnd ⟨h1, h2, ⟨extra, h3, h4⟩, h5⟩
+    rw [hr]
+    refine ⟨h1, h2, ⟨extra, [], h3, h4, fun _ => ?_⟩, h5⟩
+    unfold erasedOf
+    rw [hr]
+    cases hrr : r.2 with
+    | done q a b => exact absurd hrr (hnd q a b)
+    | refusedPlan e => rfl
+    | refusedCheck e => rfl
+    | refusedWrite e w => rfl
+    | dryRun c => rfl
   rcases exec_cases s st with ⟨e', he, hr⟩ | ⟨he, hc⟩
-  · rw [hr]
-    exact quiet _ (discardShells_WF hinv.wf _) hinv.seq hinv.vlog (fun i => by rw [hinv.discard_raw i])
+  · exact lift _ hr (by intro q a b hh; cases hh)
+      (quiet _ (discardShells_WF hinv.wf _) hinv.seq hinv.vlog (fun i => by rw [hinv.discard_raw i]))
   · cases hc with
     | dry hd' hr =>
-        rw [hr]
-        exact quiet _ (discardShells_WF hinv.wf _) hinv.seq hinv.vlog (fun i => by rw [hinv.discard_raw i])
+        exact lift _ hr (by intro q a b hh; cases hh)
+          (quiet _ (discardShells_WF hinv.wf _) hinv.seq hinv.vlog (fun i => by rw [hinv.discard_raw i]))
     | check hd' e' hk hr =>
-        rw [hr]
-        exact quiet _ (discardShells_WF hinv.wf _) hinv.seq hinv.vlog (fun i => by rw [hinv.discard_raw i])
+        exact lift _ hr (by intro q a b hh; cases hh)
+          (quiet _ (discardShells_WF hinv.wf _) hinv.seq hinv.vlog (fun i => by rw [hinv.discard_raw i]))
     | write hd' u hk s' w e' hw hr =>
-        obtain ⟨w', extra, sp⟩ := writeLoop_spec (planned s st).tx.seq (planned s st).tx.staged hsinv.keys (planned s st).s []
+        obtain ⟨w', extra, erased, sp⟩ := writeLoop_spec (planned s st).tx.seq (planned s st).tx.staged hsinv.keys (planned s st).s []
         rw [hw] at sp
         have hw' : w = w' := by have := sp.changes; simpa using this
         subst hw'
@@ -200,12 +259,14 @@ theorem exec_spec {s : Store} (hwf : WF s) (st : Stmt) : ExecSpec s st := by
         rw [hw] at hm
         rw [hr]
         have hq : (planned s st).tx.seq = s.seq + 1 := hinv.txseq
-        refine ⟨sp.wf hinv.wf, hm.2.1.trans hinv.seq, ⟨extra, by rw [sp.vlog, hinv.vlog], fun v hv => by rw [(sp.extraOK v hv).1, hq]⟩, ?_⟩
+        refine ⟨sp.wf hinv.wf, hm.2.1.trans hinv.seq, ⟨extra, erased, by rw [sp.vlog, hinv.vlog], fun v hv => by rw [(sp.extraOK v hv).1, hq],
+          fun hno => absurd rfl (hno e' w)⟩, ?_⟩
         intro hv
-        exact hv.of_loop hq (by rw [hq]; exact hm.2.1.trans hinv.seq) (by rw [sp.vlog, hinv.vlog]) sp.extraIds sp.nodup sp.extraOK
+        exact hv.of_loop hq (by rw [hq]; exact hm.2.1.trans hinv.seq) (by rw [sp.vlog, hinv.vlog]) sp.extraIds
+          (fun i hi => (sp.erasedSub i hi).1) sp.nodup sp.extraOK
           (fun i hi => loop_frame_visible hinv sp.frame i hi)
     | done hd' u hk s' w hw hr =>
-        obtain ⟨w', extra, sp⟩ := writeLoop_spec (planned s st).tx.seq (planned s st).tx.staged hsinv.keys (planned s st).s []
+        obtain ⟨w', extra, erased, sp⟩ := writeLoop_spec (planned s st).tx.seq (planned s st).tx.staged hsinv.keys (planned s st).s []
         rw [hw] at sp
         have hw' : w = w' := by have := sp.changes; simpa using this
         subst hw'
@@ -221,7 +282,8 @@ theorem exec_spec {s : Store} (hwf : WF s) (st : Stmt) : ExecSpec s st := by
             rw [sp.extraIds] at this
             exact List.mem_reverse.mp this
           simp [this]
-        refine ⟨?_, hm.2.1.trans hinv.seq, ⟨extra, by show s'.vlog = _; rw [sp.vlog, hinv.vlog], fun v hv => by rw [(sp.extraOK v hv).1, hq]⟩, ?_⟩
+        refine ⟨?_, hm.2.1.trans hinv.seq, ⟨extra, erased, by show s'.vlog = _; rw [sp.vlog, hinv.vlog], fun v hv => by rw [(sp.extraOK v hv).1, hq],
+          fun _ => by rw [sp.erasedAll rfl]; unfold erasedOf; rw [hr]⟩, ?_⟩
         · have hwf' := sp.wf hinv.wf
           intro i hi
           rw [committedStore_elems]
@@ -230,7 +292,7 @@ theorem exec_spec {s : Store} (hwf : WF s) (st : Stmt) : ExecSpec s st := by
           · exact hwf' i (by simpa [committedStore, discardUnstaged, discardShells] using hi)
         · intro hv
           refine hv.of_loop (w := w) hq (hm.2.1.trans (hinv.seq.trans hq.symm))
-            (by show s'.vlog = _; rw [sp.vlog, hinv.vlog]) sp.extraIds sp.nodup ?_ ?_
+            (by show s'.vlog = _; rw [sp.vlog, hinv.vlog]) sp.extraIds (fun i hi => (sp.erasedSub i hi).1) sp.nodup ?_ ?_
           · intro v hvm
             obtain ⟨h1, h2, h3, h4⟩ := sp.extraOK v hvm
             exact ⟨h1, by rw [hkeep v hvm]; exact h2, h3, h4⟩
@@ -250,19 +312,19 @@ theorem run_append (s : Store) (a b : List Stmt) : run s (a ++ b) = run (run s a
 
 theorem run_spec {s : Store} (hwf : WF s) (l : List Stmt) :
     WF (run s l) ∧ s.seq + l.length = (run s l).seq ∧ (VInv s → VInv (run s l)) ∧
-    ∃ extra, (run s l).vlog = extra ++ s.vlog ∧ ∀ v ∈ extra, s.seq < v.seq := by
+    ∃ extra erased, (run s l).vlog = extra ++ eraseAll erased s.vlog ∧ ∀ v ∈ extra, s.seq < v.seq := by
   induction l generalizing s with
-  | nil => exact ⟨hwf, rfl, id, [], rfl, by intro v hv; cases hv⟩
+  | nil => exact ⟨hwf, rfl, id, [], [], by simp [run, eraseAll_nil], by intro v hv; cases hv⟩
   | cons st r ih =>
       have sp := exec_spec hwf st
-      obtain ⟨h1, h2, h3, ex2, h4, h5⟩ := ih sp.wf
-      obtain ⟨ex1, h6, h7⟩ := sp.vlog
-      refine ⟨h1, ?_, fun hv => h3 (sp.vinv hv), ex2 ++ ex1, ?_, ?_⟩
+      obtain ⟨h1, h2, h3, ex2, er2, h4, h5⟩ := ih sp.wf
+      obtain ⟨ex1, er1, h6, h7, _⟩ := sp.vlog
+      refine ⟨h1, ?_, fun hv => h3 (sp.vinv hv), ex2 ++ eraseAll er2 ex1, er1 ++ er2, ?_, ?_⟩
       · simp only [run, List.length_cons]; rw [← h2, sp.seq]; omega
-      · simp only [run]; rw [h4, h6]; simp
+      · simp only [run]; rw [h4, h6, eraseAll_append, eraseAll_eraseAll]; simp
       · intro v hv
         rcases List.mem_append.mp hv with hv | hv
         · have := h5 v hv; rw [sp.seq] at this; omega
-        · rw [h7 v hv]; omega
+        · rw [h7 v (mem_eraseAll hv).1]; omega
 
 end AndaVerif.Tx
